@@ -704,7 +704,7 @@ func runC14(r *Run) {
 			r.check(hit == nil, fmt.Sprintf("handler:set#%d:entry-complete-when-stored", n), r.pos(c.Instr), "no write of an item field is reachable after the entry was handed to the store",
 				"a field of the entry is written after manager.set: with an external Storage the stored record was serialised before — it keeps the old value (heap index 0 for every entry: a later removal by index takes another entry's slot and size; the byte accounting drifts and heap.Remove can index out of range): "+pathString(r.P, path))
 		}
-		r.atLeast("manager.set calls in the handler", n, 2)
+		r.atLeast("manager.set calls in the handler", n, 1)
 	})
 
 	r.rule("R12", "what the cache keeps of a response is copied out of it: the bytes stored in an item — body, content type, encoding, and both the names and the values of the stored headers — are copies, not views of the response's (or a header visitor's) buffers, which the next response written through the same context overwrites (E3)", func() {
